@@ -8,10 +8,22 @@
 (***************************************************************************)
 EXTENDS PulserRender, Json
 
+CONSTANT NAssign   \* number of variable assignments of a template configuration (0 = none)
+
 Init ==
   /\ \E d \in 1..Len(Devs) : s = ReplayFrom(Init0(d), InitCalls, 1)
   /\ hist = <<>>
   /\ viol = {}
+
+(* how a successful call is recorded by the implementation: "L" in _calls, "S" in      *)
+(* _to_build_calls, "LS" = declare_channel of a parametrized sequence with an initial  *)
+(* target (declaration logged without it, target() stored), "N" = not recorded         *)
+RecMode(st, c, r) ==
+  IF r.out # "ok" \/ c.op \in {"est", "getdur"} THEN "N"
+  ELSE IF c.op = "declare" /\ ~r.st.bld /\ c.it # 0 /\ DevOf(st).chs[c.cid].addr = "L" THEN "LS"
+  ELSE IF c.op \in {"declare", "magfield"} THEN "L"
+  ELSE IF ~r.st.bld THEN "S"
+  ELSE "L"
 
 Next ==
   /\ Len(hist) < MaxDepth
@@ -19,8 +31,27 @@ Next ==
        LET c == Calls[k]
            r == Step(s, c)
        IN /\ s' = r.st
-          /\ hist' = Append(hist, <<k, r.out, r.ret>>)
+          /\ hist' = Append(hist, <<k, r.out, r.ret, RecMode(s, c, r)>>)
           /\ viol' = Viol(s, c, r, hist)
+
+(* Sequence.build with the variable assignment number a: a new sequence replays _calls, then the stored calls *)
+(* with their arguments evaluated (alt[a] of a parametrized call record)                *)
+Concrete(c, a) == IF IsPar(c) THEN c.alt[a] ELSE c
+BuildResult(h, d, a) ==
+  LET st0 == ReplayFrom(Init0(d), InitCalls, 1)
+      P1 == SelectSeq(h, LAMBDA e : e[4] \in {"L", "LS"})
+      P2 == SelectSeq(h, LAMBDA e : e[4] \in {"S", "LS"})
+      Call1(e) == IF e[4] = "LS" THEN [Calls[e[1]] EXCEPT !.it = 0] ELSE Concrete(Calls[e[1]], a)
+      Call2(e) == IF e[4] = "LS"
+                  THEN [op |-> "target", nm |-> Calls[e[1]].nm, tg |-> Calls[e[1]].it]
+                  ELSE Concrete(Calls[e[1]], a)
+      RECURSIVE run(_, _, _, _)
+      run(st, es, k, first) ==
+        IF k > Len(es) THEN Ok(st)
+        ELSE LET r == StepB(st, IF first THEN Call1(es[k]) ELSE Call2(es[k])) IN
+             IF r.out # "ok" THEN r ELSE run(r.st, es, k + 1, first)
+      r1 == run(st0, P1, 1, TRUE)
+  IN IF r1.out # "ok" THEN r1 ELSE run(r1.st, P2, 1, FALSE)
 
 Spec == Init /\ [][Next]_vars
 
@@ -32,6 +63,11 @@ Obs(st) ==
        du |-> ChanDur(st.ch[i]), df |-> ChanDurFall(CfgOf(st, i), st.ch[i])]]]
 
 Emit == PrintT("ST|" \o ToJson([h |-> hist, s |-> Obs(s), v |-> viol]))
+
+(* the same with the result of build() for every assignment of the configuration (C08) *)
+EmitB == PrintT("ST|" \o ToJson([h |-> hist, s |-> Obs(s), v |-> viol,
+           b |-> [a \in 1..NAssign |->
+                    LET r == BuildResult(hist, s.dev, a) IN [out |-> r.out, st |-> Obs(r.st)]]]))
 
 (* the same with the reference rendering of the state (C06 / C05 / C14) *)
 EmitR == PrintT("ST|" \o ToJson([h |-> hist, s |-> Obs(s), v |-> viol, r |-> Render(s)]))
